@@ -569,7 +569,7 @@ def correspond(ctx, model):
         cfgs = sample_grid(ctx, full, ctx.n(230, len(full)))
         ctx.exhaustive = False
     ctx.extra["grid"] = {"configurations_total": len(full), "configurations_run": len(cfgs)}
-    nviews = ctx.n(36, 420)
+    nviews = ctx.n(36, 160)
     view_idx = set(int(i) for i in rng.permutation(len(cfgs))[:nviews])
     for i, cfg in enumerate(cfgs):
         run_config(ctx, model, cfg, rng, views=(i in view_idx), stream="grid")
@@ -577,8 +577,8 @@ def correspond(ctx, model):
     dfull = G.derived_grid()
     unary = [c for c in dfull if c["form"] not in ("add", "sub", "comp")]
     binary = [c for c in dfull if c["form"] in ("add", "sub", "comp")]
-    pick_u = [unary[int(i)] for i in rng.permutation(len(unary))[: ctx.n(50, len(unary))]]
-    pick_b = [binary[int(i)] for i in rng.permutation(len(binary))[: ctx.n(70, len(binary))]]
+    pick_u = [unary[int(i)] for i in rng.permutation(len(unary))[: ctx.n(50, 500)]]
+    pick_b = [binary[int(i)] for i in rng.permutation(len(binary))[: ctx.n(70, 300)]]
     ctx.extra["derived_grid"] = {"unary_total": len(unary), "unary_run": len(pick_u), "binary_total": len(binary), "binary_run": len(pick_b)}
     short = G.shortcut_grid()
     ctx.extra["derived_grid"]["shortcut_pairs_run"] = len(short)
@@ -589,7 +589,7 @@ def correspond(ctx, model):
     # 4. leaf models ------------------------------------------------------------------------------------------------
     leaf_models(ctx, model, rng)
     # 5. random derivation trees against the Lean model -------------------------------------------------------------
-    ntrees = ctx.n(45, 420)
+    ntrees = ctx.n(45, 90)
     maxd = ctx.n(3, 5)
     for t in range(ntrees):
         dt = [G.R64, G.C128, G.C128, G.R64, G.C64, G.R32][int(rng.integers(6))]
